@@ -700,8 +700,11 @@ class FnLower:
             if isref:
                 self.refs.add(p['id'])
             self.names[p['id']] = nm
-            parts.append(self.ctx.ctype_decl(p['type'], nm))
+            decl = self.ctx.ctype_decl(p['type'], nm)
+            parts.append(decl)
             self.param_names.append(nm)
+            self.param_is_ptr = getattr(self, 'param_is_ptr', {})
+            self.param_is_ptr[nm] = '*' in decl
         if self.kind() in ('CXXConstructorDecl', 'CXXDestructorDecl'):
             rt = 'void'
         else:
@@ -767,7 +770,8 @@ class FnLower:
         rng = self.fn.get('range', {})
         return {'cname': self.ctx.fn_cname(self.fn), 'file': f, 'line': l,
                 'qualtype': self.fn['type']['qualType'], 'rettype': self.rettype,
-                'owner': self.owner.qname if self.owner is not None else None, 'name': self.fn.get('name')}
+                'owner': self.owner.qname if self.owner is not None else None, 'name': self.fn.get('name'),
+                'params': list(getattr(self, 'param_names', [])), 'param_is_ptr': dict(getattr(self, 'param_is_ptr', {}))}
 
     # ---------------------------------------------------------------- expressions
     def newtmp(self, prefix='__t'):
@@ -948,8 +952,18 @@ class FnLower:
             raise Unsupported('derived-to-base from unknown type %s' % st)
         cur = src
         path = ''
-        for step in n.get('path', []):
+        steps = n.get('path', [])
+        final = self.ctx.rec_of(type_str(n['type']))
+        for si, step in enumerate(steps):
             target = canon_type(step['name'])
+            if si == len(steps) - 1 and final is not None:
+                # the last step lands on the type of the cast itself: unambiguous even when two bases are
+                # specialisations of the same template
+                hit = [i for i, b in enumerate(cur.bases) if self.ast.rec_by_qname.get(b) is final]
+                if len(hit) == 1:
+                    path += '._b%d' % hit[0]
+                    cur = final
+                    continue
             idx = None
             for i, b in enumerate(cur.bases):
                 if b == target:
@@ -1057,12 +1071,29 @@ class FnLower:
     def e_ConditionalOperator(self, n):
         c, a, b = n['inner']
         ec = self.expr(c)
-        self.no_hoist += 1
-        try:
-            ea = self.expr(a); eb = self.expr(b)
-        finally:
-            self.no_hoist -= 1
-        return '(%s ? %s : %s)' % (ec, ea, eb)
+        # lower each arm with its own buffer of hoisted statements; arms that need temporaries turn the
+        # operator into an if/else that assigns a result variable (evaluation stays conditional)
+        saved = self.pre
+        saved_nh = self.no_hoist
+        self.no_hoist = 0
+        self.pre = []; ea = self.expr(a); pa = self.pre
+        self.pre = []; eb = self.expr(b); pb = self.pre
+        self.pre = saved
+        self.no_hoist = saved_nh
+        if not pa and not pb:
+            return '(%s ? %s : %s)' % (ec, ea, eb)
+        if self.no_hoist:
+            raise Unsupported('temporary needed inside a short-circuit operand / loop condition')
+        base, suffix, isref = self.ctx.ctype(n['type'])
+        if suffix or isref:
+            raise Unsupported('conditional operator with temporaries of array/reference type')
+        if base == 'void':
+            self.hoist('if (%s) { %s %s; } else { %s %s; }' % (ec, ' '.join(pa), ea, ' '.join(pb), eb))
+            return '((void)0)'
+        r = self.newtmp('__q')
+        self.hoist('%s %s;' % (base, r))
+        self.hoist('if (%s) { %s %s = %s; } else { %s %s = %s; }' % (ec, ' '.join(pa), r, ea, ' '.join(pb), r, eb))
+        return r
 
     def e_ArraySubscriptExpr(self, n):
         a, b = n['inner']
